@@ -416,4 +416,38 @@ theorem C16_code_pair_species_no_unpack (k : String) : pair_species_func strip k
     split <;> simp
 
 
+open Atsim.Gen.Logic in
+private theorem lookupLast_lower_none_iff (L : List String) (k : String) :
+    lookupLast (L.map fun n => (n.toLower, n)) k = none ↔ L.find? (fun s => s.toLower == k) = none := by
+  simp [lookupLast, List.find?_eq_none]
+
+open Atsim.Gen.Logic in
+private theorem signature_loop_eq (label : String) (pn : List String) : ∀ (ns L : List String),
+    signature_names_check_loop1 String.toLower label pn (L.map fun n => (n.toLower, n)) ns
+      = if (sigClash L ns).isNone then .ok () else .error SigErr.sameVariable
+  | [], L => by simp [signature_names_check_loop1, sigClash]
+  | n :: ns, L => by
+    unfold signature_names_check_loop1 sigClash
+    cases h : L.find? (fun s => s.toLower == n.toLower) with
+    | none =>
+      rw [(lookupLast_lower_none_iff L n.toLower).2 h]
+      have ih := signature_loop_eq label pn ns (L ++ [n])
+      rw [List.map_append] at ih
+      simpa using ih
+    | some s =>
+      cases h2 : lookupLast (L.map fun n => (n.toLower, n)) n.toLower with
+      | none =>
+        rw [(lookupLast_lower_none_iff L n.toLower).1 h2] at h
+        cases h
+      | some v => simp
+
+open Atsim.Gen.Logic in
+/-- **code tie (signature)**: the name-clash loop of `_Cexptrk_Potential_Function._init_symbol_table` as regenerated (the `seen` dictionary keyed by `pn.lower()`)
+    refuses a signature exactly when `validSignature` does: some parameter is, up to case, an earlier one -/
+theorem C16_code_signature_check (ns : List String) (label : String) :
+    signature_names_check String.toLower ns label = if validSignature ns then .ok () else .error SigErr.sameVariable := by
+  have h := signature_loop_eq label ns ns []
+  simpa [signature_names_check, validSignature] using h
+
+
 end Atsim.C16
